@@ -187,11 +187,12 @@ Lemma send_process_open : forall s m,
   let s1 := touch s in
   if snd (stamp sc now s m) then (true, s1, [EOut enc])
   else
+    let increment := (m_custom m =? 0) && negb (m_noinc m) && negb (beq (m_type m) mt_sequence_reset) in
     let per1 := if p_attached (s_per s1) then
         let p0 := if is_admin sc (m_type m) then s_per s1 else p_put (s_per s1) (s_next_send s1) enc in
-        p_put_ctrl p0 (s_next_send s1 + 1) (s_next_recv s1) else s_per s1 in
+        p_put_ctrl p0 (if increment then s_next_send s1 + 1 else s_next_send s1) (s_next_recv s1) else s_per s1 in
     let s2 := w_per per1 s1 in
-    let s3 := if (m_custom m =? 0) && negb (m_noinc m) && negb (beq (m_type m) mt_sequence_reset) then w_next_send (s_next_send s2 + 1) s2 else s2 in
+    let s3 := if increment then w_next_send (s_next_send s2 + 1) s2 else s2 in
     (true, s3, [EOut enc]).
 Proof.
   intros s m Hc Hb He W. unfold send_process, stamp.
@@ -261,7 +262,7 @@ Proof. intros. unfold p_put_ctrl. destruct (p_kind p) eqn:E; [exact E| destruct 
 
 Definition after_gap (s : sess) : sess :=
   let s1 := touch s in
-  w_per (p_put_ctrl (s_per s1) (s_next_send s1 + 1) (s_next_recv s1)) s1.
+  w_per (p_put_ctrl (s_per s1) (s_next_send s1) (s_next_recv s1)) s1.
 
 Lemma core_after_gap : forall s, s_batch s = [] -> core (after_gap s) = core s.
 Proof.
